@@ -4,11 +4,14 @@ use crate::engine::{Ctx, Tier};
 use serde_json::Value;
 
 pub mod c01;
+pub mod c02;
 pub mod c03;
 pub mod c06;
 pub mod c10;
 pub mod tunnelreq;
 pub mod c11;
+pub mod c14;
+pub mod pipes;
 
 pub struct PropDef {
     pub id: &'static str,
@@ -31,6 +34,13 @@ pub static PROPS: &[PropDef] = &[
         workers: w16,
     },
     PropDef {
+        id: "C02",
+        level: "fault_enumeration",
+        run: c02::run,
+        replay: c02::replay,
+        workers: w16,
+    },
+    PropDef {
         id: "C03",
         level: "exploration",
         run: c03::run,
@@ -49,6 +59,13 @@ pub static PROPS: &[PropDef] = &[
         level: "exploration",
         run: c11::run,
         replay: c11::replay,
+        workers: w16,
+    },
+    PropDef {
+        id: "C14",
+        level: "exploration",
+        run: c14::run,
+        replay: c14::replay,
         workers: w16,
     },
     PropDef {
